@@ -92,8 +92,53 @@ def run(ctx):
     if esc is None:
         raise AnalysisError("anchor vanished: _escape_ctrl_chars")
     sub = [n for n in ast.walk(esc.node) if isinstance(n, ast.Call) and dotted(n.func) == "re.sub"]
-    if not sub:
-        ctx.error("CT_RegularTextRun._escape_ctrl_chars", "re.sub call not found")
+    tr = [n for n in ast.walk(esc.node) if isinstance(n, ast.Call) and isinstance(n.func, ast.Attribute) and n.func.attr == "translate"
+          and dotted(n.func.value) == esc.node.args.args[-1].arg and len(n.args) == 1]
+    if not sub and tr:
+        # str.translate(TABLE) with TABLE = {c: FMT % c for c in range(a, b) if c not in (...)} (module level or local)
+        tbl = tr[0].args[0]
+        node = esc.module.assigns.get(tbl.id) if isinstance(tbl, ast.Name) else tbl
+        keys, fmt_ok = None, False
+        if isinstance(node, ast.DictComp) and len(node.generators) == 1 and isinstance(node.generators[0].iter, ast.Call) \
+                and dotted(node.generators[0].iter.func) == "range":
+            g = node.generators[0]
+            bounds = [prog.const(a, esc.module) for a in g.iter.args]
+            if all(isinstance(b, int) for b in bounds) and isinstance(g.target, ast.Name) and dotted(node.key) == g.target.id:
+                keys = set(range(*bounds))
+                for t in g.ifs:
+                    if isinstance(t, ast.Compare) and dotted(t.left) == g.target.id and isinstance(t.ops[0], ast.NotIn):
+                        ex = prog.const(t.comparators[0], esc.module)
+                        keys -= set(ex) if isinstance(ex, tuple) else set()
+                    elif isinstance(t, ast.Compare) and dotted(t.left) == g.target.id and isinstance(t.ops[0], ast.NotEq):
+                        keys.discard(prog.const(t.comparators[0], esc.module))
+                    else:
+                        keys = None
+                        break
+                v = node.value
+                fmt_ok = isinstance(v, ast.BinOp) and isinstance(v.op, ast.Mod) and prog.const(v.left, esc.module) == "_x%04X_" and dotted(v.right) == g.target.id
+        elif isinstance(node, ast.Dict):
+            d = prog.const(node, esc.module)
+            if isinstance(d, dict) and all(isinstance(k, int) for k in d):
+                keys = set(d)
+                fmt_ok = all(v == "_x%04X_" % k for k, v in d.items())
+        want = set(range(0x00, 0x20)) - {TAB, LF}
+        if keys is None:
+            ctx.error("CT_RegularTextRun._escape_ctrl_chars", "translate table not recognised")
+        else:
+            if keys == want:
+                ctx.ok("R4.1", "escape-class", sample={"table": "str.translate", "class": "U+0000-U+0008, U+000B-U+001F", "kept": ["TAB", "LF"]})
+            else:
+                extra, missing = sorted(keys - want), sorted(want - keys)
+                ctx.violation("R4.1", "escape-class", "escape class differs from C0 minus {TAB, LF}: escapes %s that must stay, leaves %s "
+                              "unescaped (they are not representable in XML or are silently normalised)" % (
+                                  ["U+%04X" % x for x in extra], ["U+%04X" % x for x in missing]), file=esc.file, line=esc.line)
+            if fmt_ok:
+                ctx.ok("R4.1", "escape-format", sample={"replacement": "_x%04X_ % code point"})
+            else:
+                ctx.violation("R4.1", "escape-format", "control characters are not replaced by `_x%04X_` of their code point", file=esc.file, line=esc.line)
+            ctx.ok("R4.1", "escape-subject", nontrivial=False)
+    elif not sub:
+        ctx.error("CT_RegularTextRun._escape_ctrl_chars", "neither re.sub nor str.translate found")
     else:
         c = sub[0]
         pat = prog.const(c.args[0], esc.module)
@@ -187,22 +232,72 @@ def run(ctx):
         if dotted(call.args[1]) != at.node.args.args[1].arg:
             ctx.violation("R4.2", "paragraph-split-subject", "split is not applied to the whole argument", file=at.file, line=lp.lineno)
         iv, sv = [e.id for e in lp.target.elts]
-        # body: if idx > 0: add_br ; if item: add_r(item)   (in this order)
-        br_i = r_i = None
-        for i, st in enumerate(lp.body):
-            if isinstance(st, ast.If) and isinstance(st.test, ast.Compare) and dotted(st.test.left) == iv and isinstance(st.test.ops[0], ast.Gt) \
-                    and prog.const(st.test.comparators[0], at.module) == 0 and not st.orelse \
-                    and any(isinstance(c, ast.Call) and dotted(c.func) in ("self.add_br", "self._add_br") for c in ast.walk(st)):
-                br_i = i
-            if isinstance(st, ast.If) and dotted(st.test) == sv and not st.orelse and any(
-                    isinstance(c, ast.Call) and dotted(c.func) == "self.add_r" and c.args and dotted(c.args[0]) == sv for c in ast.walk(st)):
-                r_i = i
-        extra = [st for i, st in enumerate(lp.body) if i not in (br_i, r_i) and not (isinstance(st, ast.Expr) and isinstance(st.value, ast.Constant))]
-        if br_i is not None and r_i is not None and br_i < r_i and not extra:
-            ctx.ok("R4.2", "paragraph-break-placement", sample={"per_item": "a:br before every item but the first; a:r only for a non-empty item"})
-        else:
-            ctx.violation("R4.2", "paragraph-break-placement", "one line break per separator / one run per non-empty item is not what the loop "
-                          "does (break@%s run@%s other statements %d)" % (br_i, r_i, len(extra)), file=at.file, line=lp.lineno)
+        # decision table over (idx > 0, item non-empty): which elements does one iteration add, in which order?
+        class Unknown_(Exception):
+            pass
+
+        def cond(t, first, empty):
+            if isinstance(t, ast.Compare) and dotted(t.left) == iv and len(t.ops) == 1:
+                k = prog.const(t.comparators[0], at.module)
+                if isinstance(t.ops[0], ast.Gt) and k == 0:
+                    return not first
+                if isinstance(t.ops[0], ast.GtE) and k == 1:
+                    return not first
+                if isinstance(t.ops[0], ast.Eq) and k == 0:
+                    return first
+                if isinstance(t.ops[0], ast.NotEq) and k == 0:
+                    return not first
+            if isinstance(t, ast.Name) and t.id == iv:
+                return not first
+            if isinstance(t, ast.Name) and t.id == sv:
+                return not empty
+            if isinstance(t, ast.UnaryOp) and isinstance(t.op, ast.Not):
+                return not cond(t.operand, first, empty)
+            if isinstance(t, ast.BoolOp):
+                vals = [cond(v, first, empty) for v in t.values]
+                return all(vals) if isinstance(t.op, ast.And) else any(vals)
+            raise Unknown_("condition `%s`" % ast.unparse(t))
+
+        def run_body(stmts, first, empty, out):
+            for st in stmts:
+                if isinstance(st, ast.If):
+                    if run_body(st.body if cond(st.test, first, empty) else st.orelse, first, empty, out) == "continue":
+                        return "continue"
+                elif isinstance(st, ast.Continue):
+                    return "continue"
+                elif isinstance(st, ast.Expr) and isinstance(st.value, ast.Constant):
+                    continue
+                elif isinstance(st, ast.Expr) and isinstance(st.value, ast.Call):
+                    d = dotted(st.value.func) or ""
+                    if d in ("self.add_br", "self._add_br"):
+                        out.append("br")
+                    elif d == "self.add_r" and st.value.args and dotted(st.value.args[0]) == sv:
+                        out.append("r")
+                    else:
+                        raise Unknown_("call %s" % d)
+                else:
+                    raise Unknown_("statement `%s`" % ast.unparse(st)[:40])
+            return None
+
+        try:
+            table = {}
+            for first in (True, False):
+                for empty in (True, False):
+                    out = []
+                    run_body(lp.body, first, empty, out)
+                    table[(first, empty)] = out
+            want_t = {(True, True): [], (True, False): ["r"], (False, True): ["br"], (False, False): ["br", "r"]}
+            if table == want_t:
+                ctx.ok("R4.2", "paragraph-break-placement", sample={"per_item": "a:br before every item but the first; a:r only for a non-empty item",
+                                                                    "table": {"%s/%s" % ("first" if k[0] else "later", "empty" if k[1] else "text"): v for k, v in table.items()}})
+            else:
+                bad = [(k, table[k], want_t[k]) for k in want_t if table[k] != want_t[k]]
+                k, got_, exp_ = bad[0]
+                ctx.violation("R4.2", "paragraph-break-placement", "for a %s item that is %s the loop adds %s, expected %s: the number of a:br "
+                              "elements no longer equals the number of separators" % ("first" if k[0] else "later", "empty" if k[1] else "non-empty", got_, exp_),
+                              file=at.file, line=lp.lineno)
+        except Unknown_ as e:
+            ctx.error("CT_TextParagraph.append_text", "loop body not decoded: %s" % e)
     ar = par_c.methods.get("add_r")
     good = False
     if ar is not None:
@@ -329,12 +424,37 @@ def run(ctx):
     ctx.rule("R4.4", "paragraph-level assignment removes exactly the content children and keeps the paragraph's properties")
     pr = tt.classes.get("_Paragraph")
     pc, pset = pr.methods.get("clear"), pr.setters.get("text")
-    good = any(isinstance(n, ast.For) and dotted(n.iter) == "self._element.content_children" and any(
+    removed_pop = None
+    for n in ast.walk(pc.node) if pc else []:
+        if isinstance(n, ast.For) and isinstance(n.iter, ast.BinOp):
+            parts = []
+
+            def flat(e):
+                if isinstance(e, ast.BinOp) and isinstance(e.op, ast.Add):
+                    flat(e.left)
+                    flat(e.right)
+                else:
+                    parts.append(e)
+            flat(n.iter)
+            if all(isinstance(x, ast.Attribute) and x.attr.endswith("_lst") for x in parts):
+                removed_pop = {x.attr[:-4] for x in parts}
+    if removed_pop is not None:
+        cls_tag = {"r": "CT_RegularTextRun", "br": "CT_TextLineBreak", "fld": "CT_TextField"}
+        pop = {cls_tag.get(t, t) for t in removed_pop}
+        if pop != content:
+            ctx.violation("R4.4", "_Paragraph.clear", "clear() removes %s, but the paragraph's content (what the reader concatenates) is %s: "
+                          "%s survive a paragraph-level assignment and their text is read back in front of the new text" % (
+                              sorted(removed_pop), sorted(content), sorted(content - pop)), file=pr.file, line=pc.line)
+        else:
+            ctx.ok("R4.4", "_Paragraph.clear", sample={"removes": sorted(removed_pop)})
+    good = removed_pop is None and any(isinstance(n, ast.For) and dotted(n.iter) == "self._element.content_children" and any(
         isinstance(c, ast.Call) and dotted(c.func) == "self._element.remove" and dotted(c.args[0]) == n.target.id for c in ast.walk(n))
         and not any(isinstance(x, (ast.If, ast.Continue, ast.Break)) for x in ast.walk(n)) for n in ast.walk(pc.node)) if pc else False
     others = [dotted(c.func) for c in ast.walk(pc.node) if isinstance(c, ast.Call) and (dotted(c.func) or "").startswith("self._element.")
               and not dotted(c.func).endswith(".remove")] if pc else []
-    if good and not others:
+    if removed_pop is not None:
+        pass
+    elif good and not others:
         ctx.ok("R4.4", "_Paragraph.clear", sample={"removes": "a:r, a:br, a:fld children only (a:pPr, a:endParaRPr stay)"})
     else:
         ctx.violation("R4.4", "_Paragraph.clear", "clear() does not remove exactly the content children (other element calls: %s)" % others,
